@@ -11,6 +11,7 @@ mod vset;
 mod dur;
 mod eng;
 mod laws;
+mod mlpg;
 mod engine;
 mod util;
 
@@ -46,6 +47,8 @@ fn main() {
         "label-oracle" => c17::oracle(&a[2], &a[3]),
         "c17-replay" => c17::replay(&a[2], &a[3], &a[4]),
         "c17-record" => c17::record(n(2) as u64, n(3), &a[4], &a[5]),
+        "mlpg-run" => mlpg::run(&a[2], &a[3]),
+        "mlpg-record" => mlpg::record(n(2) as u64, n(3), n(4), &a[5]),
         "c20-replay" => c20::replay(&a[2], &a[3]),
         other => die(&format!("unknown command {}", other)),
     }
